@@ -108,11 +108,11 @@ def _self_first(env, cfg, entry):
     return None
 
 
-def run_prelude(env, cfg, entry=None):
+def run_prelude(env, cfg, entry=None, key="prelude"):
     """history before the program under test: regions that were entered and left (or aborted) earlier in the run must not
     influence it (state restored: C08) -- exercised here so that each property sees such histories too"""
     rt = env.rt
-    for kind in cfg.get("prelude") or ():
+    for kind in cfg.get(key) or ():
         if kind == "self_first":
             _self_first(env, cfg, entry)
             continue
@@ -153,7 +153,10 @@ def run_concrete(env, entry, cfg, inputs):
     if cfg.get("ignore"):
         rt.ignore_errors(True)
     run_prelude(env, cfg, entry)
-    fn = lambda: entry.fn(k)
+    def fn():
+        # "inner_prelude": regions entered and left inside the guard(s) of the program under test, just before it
+        run_prelude(env, cfg, entry, key="inner_prelude")
+        return entry.fn(k)
     for gn in reversed(gnames):
         fn = (lambda inner, gn=gn: (lambda: rt.guarded(k.G(gn))(inner)()))(fn)
     if gmode in (0, 1):
